@@ -1,13 +1,13 @@
 SPECIFICATION Spec
 CONSTANTS
     Groups = {"a"}
-    Kinds = {"int", "float", "str", "bool", "none"}
+    Kinds = {"int", "float", "str", "none"}
     Values = {2}
-    Cfgs <- MCAllDefault
+    Cfgs <- MCLifeQuick
     Modes = {"stream"}
-    MaxBatches = 5
-    MaxPts = 3
-    MaxStream = 6
+    MaxBatches = 4
+    MaxPts = 2
+    MaxStream = 5
     BuggyCache = FALSE
 INVARIANTS
     TypeOK
